@@ -146,15 +146,19 @@ func init() {
 			rem = append(rem, dlParams{Target: tgt, Op: 1, Subs: 2, Threads: 1, PerT: 1, Remote: true})
 		}
 		conc := []dlParams{{Target: 1, Threads: 2, PerT: 1, Subs: 1}, {Target: 2, Threads: 2, PerT: 2, Subs: 0, Sender: true}, {Target: 3, Threads: 2, PerT: 1, Subs: 1},
-			{Target: 1, Threads: 2, PerT: 1, Subs: 3, Op: 1}, {Target: 2, Threads: 2, PerT: 1, Subs: 0, Op: 2}}
+			{Target: 1, Threads: 2, PerT: 1, Subs: 3, Op: 1}, {Target: 2, Threads: 2, PerT: 1, Subs: 0, Op: 2},
+			{Target: 1, Threads: 1, PerT: 2, Subs: 0, Churn: true}, {Target: 2, Threads: 1, PerT: 1, Subs: 1, Churn: true, Sender: true}, {Target: 1, Threads: 1, PerT: 1, Subs: 0, Op: 1, Churn: true}}
+		for tgt := 0; tgt <= 3; tgt++ {
+			clean = append(clean, dlParams{Target: tgt, Msg: tgt % 3, Sender: tgt%2 == 0, Subs: tgt % 2, Threads: 1, PerT: 1, Resub: true})
+		}
 		Register(&Job{Name: "C09/engine/targets-x-messages", Prop: "C09", Bound: 1, BoundT: 2, Budget: 40, BudgetT: 600,
 			Desc: "targets {nil, never spawned, stopped, foreign address} x messages {int, string, pointer} x sender {nil, P} x {1,2} monitors, 2 sends each, then a probe send: exactly one event per undeliverable send at every monitor, event stream intact afterwards",
 			Make: func() vsched.Instance { return engDeadLetter(clean) }})
 		Register(&Job{Name: "C09/engine/stop-requests-and-sendlocal", Prop: "C09", Bound: 1, BoundT: 2, Budget: 40, BudgetT: 600, Shards: 4,
 			Desc: "Poison / Stop / SendLocal aimed at nil, never spawned, stopped and foreign-address PIDs (1-2 requests), with 1-2 monitors or a subscriber that stops just before: exactly one DeadLetterEvent per request, returned context already done, no panic, event stream intact",
 			Make: func() vsched.Instance { return engDeadLetter(stops) }})
-		Register(&Job{Name: "C09/engine/concurrent-senders", Prop: "C09", Bound: 2, BoundT: 3, Budget: 40, BudgetT: 600, Shards: 5,
-			Desc: "2 sender threads x 1-2 sends / stop requests to unregistered or foreign targets, 1-2 monitors, a subscriber stopping just before",
+		Register(&Job{Name: "C09/engine/concurrent-senders", Prop: "C09", Bound: 2, BoundT: 3, Budget: 40, BudgetT: 600, Shards: 8,
+			Desc: "2 sender threads x 1-2 sends / stop requests to unregistered or foreign targets, 1-2 monitors, a subscriber stopping just before; 1 sender while another thread spawns and poisons an unrelated actor (registry writers racing the failed lookups: no sender may block)",
 			Make: func() vsched.Instance { return engDeadLetter(conc) }})
 		Register(&Job{Name: "C09/engine/gone-subscriber", Prop: "C09", Bound: 1, BoundT: 2, Budget: 40, BudgetT: 600, Horizon: 6000,
 			Desc: "as targets-x-messages with one monitor plus a subscriber that stopped without unsubscribing (earlier, or right before the sends: the monitor must still see its ActorStoppedEvent): finiteness and exactly-once at the live monitor",
